@@ -42,6 +42,7 @@ type Oblig struct {
 	Props   []string
 	Where   string
 	Func    string
+	Blk     int  // block of the verified function in which the obligation arises
 	WantSat bool // cover/smoke: expected satisfiable
 	Src     string
 }
@@ -71,15 +72,23 @@ type VC struct {
 	specLines   []string
 	axioms      []axiomText
 	regionCache map[string]string
+	lineBlk     []int // block of the verified function that emitted each line (-1: preamble)
+	curBlk      int
+	reach       map[int]map[int]bool // reach[a][b]: block a can reach block b without back edges
+	defMemo     map[string][]memoDef // term -> defined constant (same term, same name)
+	verNow      map[string]string    // heap version -> allocation counter when it was created
 	topFrame    *Frame
 }
 
 func newVC(u *Universe, cs *Contracts, fn string, fset *token.FileSet) *VC {
 	return &VC{u: u, cs: cs, declared: map[string]bool{}, fn: fn, lits: map[string]string{}, comps: map[string]string{},
-		fset: fset, specDecl: map[string]bool{}, usedAx: map[string]bool{}, sites: map[string]int{}}
+		fset: fset, specDecl: map[string]bool{}, usedAx: map[string]bool{}, sites: map[string]int{}, curBlk: -1}
 }
 
-func (vc *VC) emit(s string) { vc.lines = append(vc.lines, s) }
+func (vc *VC) emit(s string) {
+	vc.lines = append(vc.lines, s)
+	vc.lineBlk = append(vc.lineBlk, vc.curBlk)
+}
 
 func (vc *VC) declare(name, sort string) {
 	if vc.declared[name] {
@@ -108,8 +117,20 @@ func (vc *VC) define(prefix, sort, term string) string {
 	if len(term) < 24 && !strings.Contains(term, " ") {
 		return term
 	}
+	if vc.defMemo == nil {
+		vc.defMemo = map[string][]memoDef{}
+	}
+	key := sort + "\x00" + term
+	for _, d := range vc.defMemo[key] {
+		// reuse only a definition whose block can reach the current one (control-flow slicing
+		// drops the defining equation otherwise)
+		if d.blk < 0 || d.blk == vc.curBlk || (vc.reach != nil && vc.reach[d.blk] != nil && vc.reach[d.blk][vc.curBlk]) {
+			return d.name
+		}
+	}
 	n := vc.fresh(prefix, sort)
 	vc.assume(eq(n, term))
+	vc.defMemo[key] = append(vc.defMemo[key], memoDef{n, vc.curBlk})
 	return n
 }
 
@@ -119,7 +140,7 @@ func (vc *VC) siteName(kind string) string {
 }
 
 func (vc *VC) oblige(name, kind, goal string, props []string, where, src string) *Oblig {
-	o := &Oblig{Name: vc.fn + "/" + name, Kind: kind, Goal: goal, NLines: len(vc.lines), Props: props, Where: where, Func: vc.fn, Src: src}
+	o := &Oblig{Name: vc.fn + "/" + name, Kind: kind, Goal: goal, NLines: len(vc.lines), Props: props, Where: where, Func: vc.fn, Src: src, Blk: vc.curBlk}
 	vc.obls = append(vc.obls, o)
 	return o
 }
@@ -175,13 +196,14 @@ func sanitize(s string) string {
 // ---- heap ----
 
 type Heap struct {
-	ver map[string]string
-	now string
-	gen int
+	ver    map[string]string
+	now    string
+	gen    int
+	genNow string // allocation counter when the generation started ("" = function entry)
 }
 
 func (h *Heap) clone() *Heap {
-	n := &Heap{ver: map[string]string{}, now: h.now, gen: h.gen}
+	n := &Heap{ver: map[string]string{}, now: h.now, gen: h.gen, genNow: h.genNow}
 	for k, v := range h.ver {
 		n.ver[k] = v
 	}
@@ -214,7 +236,14 @@ func (vc *VC) cur(h *Heap, comp, elemSort string) string {
 		return v
 	}
 	name := q(fmt.Sprintf("%s@g%d", strings.Trim(comp, "|"), h.gen))
-	vc.declare(name, vc.fullSort(comp, elemSort))
+	if !vc.declared[name] {
+		vc.declare(name, vc.fullSort(comp, elemSort))
+		bound := "now0"
+		if h.genNow != "" {
+			bound = h.genNow
+		}
+		vc.refBound(name, elemSort, bound, 2)
+	}
 	return name
 }
 
@@ -223,21 +252,77 @@ func (vc *VC) setComp(h *Heap, comp, elemSort, term string) {
 	n := vc.fresh(strings.Trim(comp, "|"), vc.fullSort(comp, elemSort))
 	vc.assume(eq(n, term))
 	h.ver[comp] = n
+	vc.noteVer(n, h.now)
+}
+
+func (vc *VC) noteVer(ver, now string) {
+	if vc.verNow == nil {
+		vc.verNow = map[string]string{}
+	}
+	vc.verNow[ver] = now
+}
+
+// boundOf: every reference stored in the current version of comp is below this counter value.
+func (vc *VC) boundOf(h *Heap, comp string) string {
+	if v, ok := h.ver[comp]; ok {
+		if n, ok := vc.verNow[v]; ok {
+			return n
+		}
+		return h.now
+	}
+	if h.genNow != "" {
+		return h.genNow
+	}
+	return "now0"
 }
 
 func (vc *VC) havocComp(h *Heap, comp, elemSort string) {
 	vc.regComp(comp, elemSort)
 	h.ver[comp] = vc.fresh(strings.Trim(comp, "|"), vc.fullSort(comp, elemSort))
+	vc.noteVer(h.ver[comp], h.now)
+	vc.refBound(h.ver[comp], elemSort, h.now, 2)
+}
+
+// refBound states heap well-formedness for a version of a pointer- or slice-valued component:
+// every reference stored in it was allocated before the counter value `bound` (so a later
+// allocation cannot alias it). depth 2 = component, 1 = row, 0 = single cell.
+func (vc *VC) refBound(term, elemSort, bound string, depth int) {
+	var fact func(x string) string
+	switch elemSort {
+	case "Ptr":
+		fact = func(x string) string {
+			return and(app("<=", "0", app("pref", x)), app("<", app("pref", x), bound), app("<=", "0", app("pidx", x)))
+		}
+	case "Slice":
+		fact = func(x string) string {
+			return and(app("<=", "0", app("sref", x)), app("<", app("sref", x), bound), app("<=", "0", app("slo", x)), app("<=", "0", app("sln", x)),
+				app("<=", app("sln", x), app("scp", x)), implies(eq(app("sref", x), "0"), and(eq(app("sln", x), "0"), eq(app("scp", x), "0"))))
+		}
+	default:
+		return
+	}
+	switch depth {
+	case 2:
+		cell := app("select", app("select", term, "r!w"), "i!w")
+		vc.assume(fmt.Sprintf("(forall ((r!w Int) (i!w Int)) (! %s :pattern (%s)))", fact(cell), cell))
+	case 1:
+		cell := app("select", term, "i!w")
+		vc.assume(fmt.Sprintf("(forall ((i!w Int)) (! %s :pattern (%s)))", fact(cell), cell))
+	case 0:
+		vc.assume(fact(term))
+	}
 }
 
 // havocRow replaces one row (all cells with reference ref) of the component by arbitrary values.
 func (vc *VC) havocRow(h *Heap, comp, elemSort, ref string) {
 	row := vc.fresh("row "+strings.Trim(comp, "|"), fmt.Sprintf("(Array Int %s)", elemSort))
+	vc.refBound(row, elemSort, h.now, 1)
 	vc.setComp(h, comp, elemSort, app("store", vc.cur(h, comp, elemSort), ref, row))
 }
 
 func (vc *VC) havocCell(h *Heap, comp, elemSort, ref, idx string) {
 	c := vc.fresh("cell "+strings.Trim(comp, "|"), elemSort)
+	vc.refBound(c, elemSort, h.now, 0)
 	vc.setComp(h, comp, elemSort, store2(vc.cur(h, comp, elemSort), ref, idx, c))
 }
 
@@ -246,4 +331,10 @@ func (vc *VC) havocAll(h *Heap) {
 	h.ver = map[string]string{}
 	vc.nfresh++
 	h.gen = vc.nfresh
+	h.genNow = h.now
+}
+
+type memoDef struct {
+	name string
+	blk  int
 }
